@@ -231,10 +231,14 @@ func (res *Response) Less(idx1, idx2 int) bool {
 	for k := range res.request.Sort {
 		field := res.request.Sort[k]
 		var sortType DataType
-		if field.Group {
+		switch {
+		case field.Group:
 			sortType = StringCol
-		} else {
+		case field.Index < len(res.request.RequestColumns):
 			sortType = res.request.RequestColumns[field.Index].DataType
+		default:
+			// sort column appended behind the requested columns (pass-through queries)
+			sortType = field.Column.DataType
 		}
 		switch sortType {
 		case IntCol, Int64Col, FloatCol:
@@ -330,6 +334,14 @@ func (res *Response) PostProcessing() {
 			sort.Sort(res)
 			duration := time.Since(t1)
 			logWith(res).Debugf("sorting result took %s", duration.String())
+		}
+	}
+
+	// remove columns which were fetched in addition to the requested columns (pass-through queries)
+	numCols := len(res.request.RequestColumns)
+	for i := range res.result {
+		if len(res.result[i]) > numCols {
+			res.result[i] = res.result[i][:numCols]
 		}
 	}
 
@@ -755,11 +767,13 @@ func (res *Response) BuildPassThroughResult(ctx context.Context) {
 	// build columns list
 	backendColumns := []string{}
 	virtualColumns := []*Column{}
+	virtualIndex := []int{} // position of each virtual column in the final row
 	columnsIndex := make(map[*Column]int)
 	for colNum := range res.request.RequestColumns {
 		col := res.request.RequestColumns[colNum]
 		if col.StorageType == VirtualStore {
 			virtualColumns = append(virtualColumns, col)
+			virtualIndex = append(virtualIndex, colNum)
 		} else {
 			backendColumns = append(backendColumns, col.Name)
 		}
@@ -772,10 +786,22 @@ func (res *Response) BuildPassThroughResult(ctx context.Context) {
 			field.Index = j
 		} else {
 			field.Index = len(backendColumns) + len(virtualColumns)
+			columnsIndex[field.Column] = field.Index
 			if field.Column.StorageType == VirtualStore {
 				virtualColumns = append(virtualColumns, field.Column)
+				virtualIndex = append(virtualIndex, field.Index)
 			} else {
 				backendColumns = append(backendColumns, field.Column.Name)
+			}
+		}
+	}
+	if len(backendColumns) == 0 && len(res.request.Stats) == 0 {
+		// a livestatus query without columns returns all columns, fetch a single one instead (removed again in PostProcessing)
+		for _, col := range Objects.Tables[res.request.Table].columns {
+			if col.StorageType != VirtualStore {
+				backendColumns = append(backendColumns, col.Name)
+
+				break
 			}
 		}
 	}
@@ -812,7 +838,7 @@ func (res *Response) BuildPassThroughResult(ctx context.Context) {
 			logWith(peer, passthroughRequest).Debugf("starting passthrough request")
 			defer wg.Done()
 
-			peer.PassThroughQuery(ctx, res, passthroughRequest, virtualColumns, columnsIndex)
+			peer.PassThroughQuery(ctx, res, passthroughRequest, virtualColumns, virtualIndex)
 		}(peer, waitgroup)
 	}
 	logWith(passthroughRequest).Tracef("waiting...")
